@@ -43,3 +43,9 @@ func patchedIndex(index []tensor.Range, p tensor.Tensor) (pidx []tensor.Range) {
 
 	return pidx
 }
+
+func copiedIndex(index []tensor.Range) (cidx []tensor.Range) {
+	cidx = make([]tensor.Range, len(index))
+	copy(cidx, index)
+	return cidx
+}
